@@ -12,16 +12,23 @@
    Gen_cover.cfg: exhaustive; VIEW without the history and ACTION_CONSTRAINT EmitEdge print, for every
      transition of I_Syncer's state graph that ends an Apply (completion, crash at every reachable
      write point) or restarts, the history reaching it: every crash point of every reachable sync.
-   Gen_sim.cfg: `-simulate`; each random walk is printed when it has SimLen entries.  CrashOdds thins
-     crashes (a coin drawn at StartApply), MaxPend bounds the edits between two syncs.            *)
+   Gen_sim.cfg: `-simulate`; each random walk is printed when it has SimLen entries.  The crash point
+     of an Apply is drawn when it starts (uniform over 1..3*MaxK; an Apply with fewer writes completes), restarts
+     are thinned by RestartOdds, MaxPend bounds the edits between two syncs.                      *)
 EXTENDS I_Syncer, Json
 
-CONSTANTS SimLen, CrashOdds, MaxPend
+CONSTANTS SimLen,       \* behaviour length (entries)
+          MaxPend,      \* edits between two syncs
+          CrashAny,     \* TRUE: an Apply may crash after any write (exhaustive cover);
+                        \* FALSE: the crash point is drawn when the Apply starts (simulation)
+          MaxK,         \* simulation: crash points are drawn from 0..3*MaxK (0 = none)
+          RestartOdds   \* simulation: a restart is possible after one completed sync in RestartOdds
 VARIABLES hist,     \* the behaviour so far
           nw,       \* map writes of the running Apply
-          coin,     \* 1 = this Apply may crash
+          coin,     \* simulation: planned crash point of the running Apply (0: none)
+          rcoin,    \* simulation: 1 = a restart may follow
           pend      \* edits since the last Apply started
-gvars == <<ivars, hist, nw, coin, pend>>
+gvars == <<ivars, hist, nw, coin, rcoin, pend>>
 
 SetToSeq(S) == SeqOf(S)
 EpsOf(s) == LET E == { e \in Eps : dep[s, e] # "none" } IN
@@ -29,21 +36,25 @@ EpsOf(s) == LET E == { e \in Eps : dep[s, e] # "none" } IN
 SvcOf(s) == [s |-> s, ext |-> dsvc[s].ext, lb |-> dsvc[s].lb, np |-> dsvc[s].np, xl |-> dsvc[s].xl, eps |-> EpsOf(s)]
 DesiredSeq == [i \in 1..Cardinality(On) |-> SvcOf(SetToSeq(On)[i])]
 
-GInit == Init /\ hist = <<>> /\ nw = 0 /\ coin = 0 /\ pend = 0
+GInit == Init /\ hist = <<>> /\ nw = 0 /\ coin = 0 /\ rcoin = 1 /\ pend = 0
 
 Going == Len(hist) < SimLen
+CrashNow == pc # "idle" /\ nw > 0 /\ (CrashAny \/ nw = coin)   \* (a crash before the first write = restart)
+Forced == ~CrashAny /\ CrashNow                                \* simulation: the planned point is reached
 
 GNext ==
-    \/ /\ Len(hist) = SimLen /\ hist' = Append(hist, [op |-> "end"]) /\ UNCHANGED <<ivars, nw, coin, pend>>
-    \/ /\ Going /\ pend < MaxPend /\ Env /\ pend' = pend + 1 /\ UNCHANGED <<hist, nw, coin>>
-    \/ /\ Going /\ (pend > 0 \/ ~synced) /\ StartApply /\ nw' = 0 /\ pend' = 0 /\ coin' \in 1..CrashOdds /\ UNCHANGED hist
-    \/ /\ Going /\ Write /\ nw' = nw + 1 /\ UNCHANGED <<hist, coin, pend>>
-    \/ /\ Going /\ NextPhase /\ UNCHANGED <<hist, nw, coin, pend>>
-    \/ /\ Going /\ Finish /\ hist' = Append(hist, [op |-> "sync", svcs |-> DesiredSeq]) /\ UNCHANGED <<nw, coin, pend>>
-    \/ /\ Going /\ pc # "idle" /\ coin = 1 /\ nw > 0 /\ Crash        \* (a crash before the first write = restart)
-       /\ hist' = Append(hist, [op |-> "crash", k |-> nw, svcs |-> DesiredSeq]) /\ UNCHANGED <<nw, coin, pend>>
-    \/ /\ Going /\ pc = "idle" /\ pend = 0 /\ Crash
-       /\ hist' = Append(hist, [op |-> "restart"]) /\ UNCHANGED <<nw, coin, pend>>
+    \/ /\ Len(hist) = SimLen /\ hist' = Append(hist, [op |-> "end"]) /\ UNCHANGED <<ivars, nw, coin, rcoin, pend>>
+    \/ /\ Going /\ pend < MaxPend /\ Env /\ pend' = pend + 1 /\ UNCHANGED <<hist, nw, coin, rcoin>>
+    \/ /\ Going /\ (pend > 0 \/ ~synced) /\ StartApply /\ nw' = 0 /\ pend' = 0
+       /\ coin' \in (IF CrashAny THEN {0} ELSE 0..(3 * MaxK)) /\ UNCHANGED <<hist, rcoin>>
+    \/ /\ Going /\ ~Forced /\ Write /\ nw' = nw + 1 /\ UNCHANGED <<hist, coin, rcoin, pend>>
+    \/ /\ Going /\ ~Forced /\ NextPhase /\ UNCHANGED <<hist, nw, coin, rcoin, pend>>
+    \/ /\ Going /\ Finish /\ hist' = Append(hist, [op |-> "sync", svcs |-> DesiredSeq])
+       /\ rcoin' \in 1..RestartOdds /\ UNCHANGED <<nw, coin, pend>>
+    \/ /\ Going /\ CrashNow /\ Crash
+       /\ hist' = Append(hist, [op |-> "crash", k |-> nw, svcs |-> DesiredSeq]) /\ UNCHANGED <<nw, coin, rcoin, pend>>
+    \/ /\ Going /\ pc = "idle" /\ pend = 0 /\ rcoin = 1 /\ Crash
+       /\ hist' = Append(hist, [op |-> "restart"]) /\ UNCHANGED <<nw, coin, rcoin, pend>>
 
 GView == <<ivars, pend>>
 EmitEdge == (hist' # hist) => PrintT("BEH " \o ToJson(hist'))
